@@ -117,6 +117,92 @@ def normalize(n):
     return out
 
 
+def _recv_loop(n, tail):
+    """`loop { let P = match E { Some(v) => v, None => break }; REST }` is `while let Some(P) = E { REST }` (with `return`
+    instead of `break` when nothing follows the loop).  Returns the while node or None."""
+    body = n.get("body")
+    if not ir.is_node(body) or body["k"] != "block" or not body.get("stmts"):
+        return None
+    st = body["stmts"][0]
+    if st["k"] != "slet" or "init" not in st or "els" in st or st["init"]["k"] != "match":
+        return None
+    m = st["init"]
+    if len(m["arms"]) != 2 or any("guard" in a for a in m["arms"]):
+        return None
+    some = next((a for a in m["arms"] if a["pat"]["k"] == "ptstruct" and a["pat"].get("path") == "core::option::Option::Some"), None)
+    none = next((a for a in m["arms"] if a is not some), None)
+    if some is None or none is None:
+        return None
+    np_ = none["pat"]
+    if not (np_["k"] == "pwild" or (np_["k"] in ("pexpr", "ptstruct") and np_.get("path") == "core::option::Option::None")):
+        return None
+    ex = none["body"]
+    while ex["k"] == "block" and not ex.get("stmts") and "expr" in ex:
+        ex = ex["expr"]
+    if ex["k"] == "break":
+        if "e" in ex or ex.get("label") not in (None, n.get("label")):
+            return None
+    elif ex["k"] == "ret":
+        if "e" in ex or not tail:
+            return None
+    else:
+        return None
+    sp_ = some["pat"]["pats"]
+    sb = some["body"]
+    while sb["k"] == "block" and not sb.get("stmts") and "expr" in sb:
+        sb = sb["expr"]
+    if len(sp_) != 1 or sp_[0]["k"] != "pbind" or sb["k"] != "var" or sb.get("id") != sp_[0].get("id"):
+        return None
+    rest = dict(body)
+    rest["stmts"] = body["stmts"][1:]
+    w = {"k": "while", "sp": n["sp"], "ty": "()",
+         "c": {"k": "let", "sp": m["sp"], "ty": "bool",
+               "pat": {"k": "ptstruct", "sp": some["pat"]["sp"], "ty": some["pat"].get("ty"), "path": "core::option::Option::Some", "pats": [st["pat"]]},
+               "init": m["scrut"]},
+         "body": rest}
+    if "label" in n:
+        w["label"] = n["label"]
+    return w
+
+
+def resugar_loops(n, tail=True):
+    """Post-pass over a normalised tree (in place); `tail`: n is in tail position of a function / closure body."""
+    if isinstance(n, list):
+        return [resugar_loops(x, False) for x in n]
+    if not isinstance(n, dict):
+        return n
+    k = n.get("k")
+    if k == "select":
+        for b in n["branches"]:
+            for key in ("fut", "pat", "body"):
+                if ir.is_node(b.get(key)):
+                    b[key] = resugar_loops(b[key], False)
+        if ir.is_node(n.get("else")):
+            n["else"] = resugar_loops(n["else"], False)
+        return n
+    if k == "closure":
+        n["body"] = resugar_loops(n["body"], True)
+        return n
+    if k == "block":
+        ss = n.get("stmts", [])
+        for i, x in enumerate(ss):
+            ss[i] = resugar_loops(x, tail and i == len(ss) - 1 and "expr" not in n)
+        if "expr" in n:
+            n["expr"] = resugar_loops(n["expr"], tail)
+        return n
+    if k in ("await", "semi") and ir.is_node(n.get("e")):
+        n["e"] = resugar_loops(n["e"], tail and k == "semi")
+        return n
+    for key, v in list(n.items()):
+        if key != "m" and isinstance(v, (dict, list)):
+            n[key] = resugar_loops(v, False)
+    if k == "loop":
+        w = _recv_loop(n, tail)
+        if w is not None:
+            return w
+    return n
+
+
 ir.CHILD_KEYS = ir.CHILD_KEYS  # (select branches handled in children below)
 _orig_children = ir.children
 
@@ -179,7 +265,7 @@ class Fn:
         self.vis = rec.get("vis")
         self.params = rec.get("params", [])
         self.raw_body = rec["body"]
-        nb = normalize(rec["body"])
+        nb = resugar_loops(normalize(rec["body"]))
         self.full_body, wrapped_async = _strip_wrappers(nb)
         self.is_async = bool(rec.get("is_async")) or wrapped_async
         # async fn bodies are `{ let p = p; ...; { user body } }`: expose the user body, keep the rebinding lets
